@@ -369,6 +369,16 @@ def judge_walk(texts):
     except Exception:
         return None
     from awesomeyaml.nodes.node_path import NodePath
+    from awesomeyaml.nodes.composed import ComposedNode
+    # both views of every container of the merged tree agree (merging moves / removes nodes by path: !prev, !append, !extend, !del)
+    todo = [((), root)]
+    while todo:
+        pp, n = todo.pop()
+        if isinstance(n, ComposedNode):
+            bad = consistent_list(n) if isinstance(n, list) else consistent_dict(n)
+            if bad:
+                return dict(path=list(pp), reason='the two views of a container of the merged tree disagree: ' + bad)
+            todo += [(pp + (k,), c) for k, c in n._children.items()]
     for p, n in root.ayns.nodes_with_paths():
         got = root.ayns.get_node(p, incomplete=None)
         if got is not n:
@@ -462,7 +472,8 @@ Fixpoint dtrace (s : dct) (ops : list dop) : list (dct * oc) := match ops with [
     # oracles on the implementation
     base.run_oracle(rep, 'C17', 'two-view consistency after every operation', ocases, judge_ops)
     from .. import gen, mergecorr
-    hist = [mergecorr.history_texts(gen.gen_history(rng, gen.PROFILES[p], 1, 3)) for p in ['plain', 'del', 'func'] for _ in range(N // 8)]
+    hist = [mergecorr.history_texts(gen.gen_history(rng, gen.PROFILES[p], 1, 3)) for p in ['plain', 'del', 'func', 'ops', 'ops'] for _ in range(N // 8)]
+    hist += [['{tbl: {-1: before, 0: here, 1: after}, n: {-12: {-3: x}}}'], ['{a: {x: 1, z: 2}, l: [1, 2, 3], k: 0}', '{q: !prev a.x, m: !prev "l[0]"}'], ['{a: [1], b: 2, c: [3]}', '{a: !append [4], c: !extend [5]}', '{d: !prev a}']]
     base.run_oracle(rep, 'C17', 'walk/lookup and path round trip on merged trees', hist, judge_walk)
 
 
